@@ -6,7 +6,7 @@ import Valida.Path
 import ValidaSpec.Walk
 import ValidaProofs.Lemmas.Basic
 import ValidaProofs.C02
-namespace ValidaProofs
+namespace ValidaProofs.C03
 open Valida ValidaGen ValidaSpec
 
 /-! ### `pickBy` -/
@@ -278,4 +278,4 @@ theorem stepNode_items (p : Part) (node : PyVal) (kvs : List (PyVal × PyVal)) (
       rw [zip_map_fst_snd'] at this
       simpa only [zip_map_fst_snd'] using this
 
-end ValidaProofs
+end ValidaProofs.C03
